@@ -16,6 +16,7 @@ import (
 	"encoding/json"
 	"encoding/pem"
 	"fmt"
+	"io"
 	"math/big"
 	"math/rand"
 	"net/rpc"
@@ -31,6 +32,7 @@ import (
 
 	hclog "github.com/hashicorp/go-hclog"
 	plugin "github.com/hashicorp/go-plugin"
+	"github.com/hashicorp/go-plugin/runner"
 	grpctest "github.com/hashicorp/go-plugin/test/grpc"
 	"google.golang.org/grpc"
 
@@ -402,5 +404,85 @@ func TestRace_Client(t *testing.T) {
 			}
 			wg.Wait()
 		}
+	}
+}
+
+// deadRunner is a custom runner whose "plugin" prints a handshake line naming a unix socket nobody listens on (a
+// plugin that died, or removed its socket, right after the handshake) and agrees to broker multiplexing.
+type deadRunner struct {
+	outR, errR *io.PipeReader
+	outW, errW *io.PipeWriter
+	done       chan struct{}
+	once       sync.Once
+	addr       string
+}
+
+func newDeadRunner(addr string) *deadRunner {
+	d := &deadRunner{done: make(chan struct{}), addr: addr}
+	d.outR, d.outW = io.Pipe()
+	d.errR, d.errW = io.Pipe()
+	return d
+}
+func (d *deadRunner) Start(context.Context) error {
+	go fmt.Fprintf(d.outW, "1|1|unix|%s|grpc||true\n", d.addr)
+	return nil
+}
+func (d *deadRunner) Diagnose(context.Context) string { return "" }
+func (d *deadRunner) Stdout() io.ReadCloser           { return d.outR }
+func (d *deadRunner) Stderr() io.ReadCloser           { return d.errR }
+func (d *deadRunner) Name() string                    { return "dead" }
+func (d *deadRunner) Wait(context.Context) error      { <-d.done; return nil }
+func (d *deadRunner) Kill(context.Context) error {
+	d.once.Do(func() { close(d.done); d.outW.Close(); d.errW.Close() })
+	return nil
+}
+func (d *deadRunner) ID() string                                       { return "dead" }
+func (d *deadRunner) PluginToHost(n, a string) (string, string, error) { return n, a, nil }
+func (d *deadRunner) HostToPlugin(n, a string) (string, string, error) { return n, a, nil }
+
+// TestRace_ClientDeadMux: with broker multiplexing agreed, the plugin's socket refuses the host's first connection;
+// several goroutines retry Client() (each attempt leaves gRPC dialling from its own goroutines), read the
+// accessors and finally Kill.
+func TestRace_ClientDeadMux(t *testing.T) {
+	r := rand.New(rand.NewSource(seed()))
+	var rmu sync.Mutex
+	for iter := 0; iter < 4; iter++ {
+		dir := t.TempDir()
+		cl := plugin.NewClient(&plugin.ClientConfig{
+			HandshakeConfig: plugin.HandshakeConfig{MagicCookieKey: "RC", MagicCookieValue: "rv", ProtocolVersion: 1},
+			Plugins:         plugin.PluginSet{"kv": &kv.GPlugin{}},
+			RunnerFunc: func(hclog.Logger, *exec.Cmd, string) (runner.Runner, error) {
+				return newDeadRunner(dir + "/nobody"), nil
+			},
+			AllowedProtocols:    []plugin.Protocol{plugin.ProtocolGRPC},
+			Logger:              hclog.NewNullLogger(),
+			GRPCBrokerMultiplex: true,
+			SkipHostEnv:         true,
+		})
+		if _, err := cl.Start(); err != nil {
+			t.Fatalf("start: %v", err)
+		}
+		var wg sync.WaitGroup
+		for g := 0; g < 4; g++ {
+			wg.Add(1)
+			go func() {
+				defer wg.Done()
+				for k := 0; k < 25; k++ {
+					jitter(r, &rmu)
+					if _, err := cl.Client(); err == nil {
+						return
+					}
+					cl.Protocol()
+					cl.Exited()
+				}
+			}()
+		}
+		wg.Wait()
+		time.Sleep(1200 * time.Millisecond) // (gRPC's redials of the abandoned connections come after its 1 s back-off)
+		for g := 0; g < 2; g++ {
+			wg.Add(1)
+			go func() { defer wg.Done(); cl.Client(); cl.Kill() }()
+		}
+		wg.Wait()
 	}
 }
